@@ -37,7 +37,7 @@ Put(al, k, v) == IF Has(al, k)
 
 \* ---- static context of a run --------------------------------------------
 \* ctx = [funcs |-> assoc name -> <<params, body>>, obj |-> assoc field -> value,
-\*        host |-> assoc name -> kind]   kind: <<"log">> (returns nothing) | <<"same">> (returns
+\*        host |-> assoc name -> kind]   kind: <<"log">> (returns nothing) | <<"pack">> (returns its arguments as an array) | <<"same">> (returns
 \*        its first argument) | <<"val", v>> (returns v)
 \* every function definition of the program, in textual order, wherever it is written
 \* (definitions are hoisted: inside blocks and inside other functions too)
@@ -175,6 +175,7 @@ CallFn(name, args, s, ctx) ==
             s1 == [s EXCEPT !.calls = Append(s.calls, <<name, args>>)] IN
         IF kind[1] = "log" THEN [v |-> V, s |-> s1]
         ELSE IF kind[1] = "same" THEN [v |-> IF Len(args) > 0 THEN args[1] ELSE N, s |-> s1]
+        ELSE IF kind[1] = "pack" THEN [v |-> A(args), s |-> s1]
         ELSE [v |-> kind[2], s |-> s1])
   ELSE IF name \in DOMAIN ctx.funcs THEN
        (LET f == ctx.funcs[name] params == f[1] body == f[2] IN
